@@ -177,3 +177,32 @@ class ThroughParse(_DateHarness):
         return mkbool(z3.simplify(z3.And(pl.ord == t.ord + n, pl.us == 0, rpl.ord == t.ord + n, rpl.us == 0,
                                          real_of(minus) == diff, real_of(days) == diff,
                                          real_of(dv) == ser_t, real_of(nn) == ser_t)))
+
+
+@register
+class DaysWithTimes(_DateHarness):
+    name = 'C13.days_times'
+    doc = 'DAYS, date subtraction, DATEVALUE and N see the same serial also for date-times with a time part and for dates ' \
+          'before 1 March 1900: DAYS(t,u) = t-u = DATEVALUE(t)-DATEVALUE(u), N(t) = DATEVALUE(t)'
+    functions = ('dateandtime.DAYS', 'dateandtime.DATEVALUE', 'information.N', 'operators.evaluate_arithmetic', 'utils.serialize_date')
+    bounds = 'all pairs of date-times 1900-01-02..9999-12-31 at millisecond resolution (and whole days)'
+
+    def cases(self, tier):
+        return [{'time': False}, {'time': True}]
+
+    def build(self, e, p):
+        lo = datetime.date(1900, 1, 2).toordinal()
+        return {'t': dates.fresh_datetime_ord(e, 't', lo, None, with_time=p['time']),
+                'u': dates.fresh_datetime_ord(e, 'u', lo, None, with_time=p['time'])}
+
+    def run(self, env, inp, p):
+        vs = {'vt': inp['t'], 'vu': inp['u']}
+        return [self.parse_with(env, f, vs) for f in ('DAYS(vt,vu)', 'vt-vu', 'DATEVALUE(vt)-DATEVALUE(vu)', 'N(vt)', 'DATEVALUE(vt)')]
+
+    def post(self, env, inp, out, p):
+        if isinstance(out, Raised) or not all(ok_result(o) for o in out):
+            return False
+        days, minus, dv, n, d1 = [o['result'] for o in out]
+        if not all(isnum(x) for x in (days, minus, dv, n, d1)):
+            return False
+        return And(days == dv, minus == dv, n == d1)
